@@ -742,7 +742,111 @@ func checkCheckKeys(c *fw.Ctx) {
 			okV = strings.Contains(s[0], "param:keys.ServerKeyFields.ServerName") && strings.HasSuffix(s[3], "param:keys.Raw") && strings.Contains(s[1], "next(range(")
 		}
 		c.Check(okV, rule, "each ed25519 key must have signed the raw response under the response's server name", c.P.Pos(v.Pos()), "", "self-signature check arguments differ")
+		checkRejectedKeyClearsFlag(c, rule, v)
 	}
+}
+
+// checkRejectedKeyClearsFlag: inside the loop over the verify keys, every path from the point at
+// which an ed25519 key is noted (HasEd25519Key = true) to the end of the iteration either puts
+// the key into the returned map of accepted keys or clears the flag that AllEd25519ChecksOK
+// points to. A path that does neither lets a malformed or wrongly signed key pass the checks.
+func checkRejectedKeyClearsFlag(c *fw.Ctx, rule string, v *ssa.Function) {
+	construct := "an ed25519 key that is not accepted clears the all-checks flag"
+	var start *ssa.Store
+	var flag *ssa.Alloc
+	for _, b := range v.Blocks {
+		for _, ins := range b.Instrs {
+			st, ok := ins.(*ssa.Store)
+			if !ok {
+				continue
+			}
+			fa, ok := st.Addr.(*ssa.FieldAddr)
+			if !ok {
+				continue
+			}
+			sty := derefStructOf(fa.X.Type())
+			if sty == nil {
+				continue
+			}
+			switch sty.Field(fa.Field).Name() {
+			case "HasEd25519Key":
+				if cst, isC := st.Val.(*ssa.Const); isC && cst.Value != nil && cst.Value.String() == "true" && start == nil {
+					start = st
+				}
+			case "AllEd25519ChecksOK":
+				if a, isA := st.Val.(*ssa.Alloc); isA {
+					flag = a
+				}
+			}
+		}
+	}
+	var accepted ssa.Value
+	for _, r := range fw.Returns(v) {
+		if len(r.Results) > 0 {
+			if mk, isMk := r.Results[0].(*ssa.MakeMap); isMk {
+				accepted = mk
+			}
+		}
+	}
+	if start == nil || flag == nil || accepted == nil {
+		c.Undecided(rule, construct, "the note of an ed25519 key, the flag behind AllEd25519ChecksOK or the map of accepted keys was not recognised in checkVerifyKeys")
+		return
+	}
+	header, _ := fw.LoopOf(start.Block())
+	if header == nil {
+		c.Undecided(rule, construct, "the ed25519 key is not noted inside a loop")
+		return
+	}
+	good := map[*ssa.BasicBlock]bool{}
+	sameBlockAfter := false
+	for _, b := range v.Blocks {
+		seenStart := false
+		for _, ins := range b.Instrs {
+			if ins == ssa.Instruction(start) {
+				seenStart = true
+			}
+			isGood := false
+			switch x := ins.(type) {
+			case *ssa.Store:
+				if cst, isC := x.Val.(*ssa.Const); isC && x.Addr == ssa.Value(flag) && cst.Value != nil && cst.Value.String() == "false" {
+					isGood = true
+				}
+			case *ssa.MapUpdate:
+				isGood = x.Map == accepted
+			}
+			if isGood {
+				good[b] = true
+				if b == start.Block() && seenStart {
+					sameBlockAfter = true
+				}
+			}
+		}
+	}
+	if sameBlockAfter {
+		c.Ok(rule, construct, c.P.Pos(fw.InstrPos(start)), "")
+		return
+	}
+	removed := map[fw.Edge]bool{}
+	for b := range good {
+		if b == start.Block() {
+			continue
+		}
+		for _, p := range b.Preds {
+			removed[fw.Edge{From: p, To: b}] = true
+		}
+	}
+	reach := fw.ReachableFrom(start.Block(), removed)
+	escapes := false
+	for _, s := range start.Block().Succs {
+		if removed[fw.Edge{From: start.Block(), To: s}] {
+			continue
+		}
+		if s == header || fw.ReachableFrom(s, removed)[header] {
+			escapes = true
+		}
+	}
+	_ = reach
+	c.Check(!escapes, rule, construct, c.P.Pos(fw.InstrPos(start)), "", "an iteration can end after HasEd25519Key was set without the key being accepted or the flag being cleared: a key of the wrong length or with a bad self-signature passes AllChecksOK")
 }
 
 // checkParallelSlices: the results of VerifyJSONs are index-parallel to its requests. Every
